@@ -106,13 +106,13 @@ theorem C03_norm_of_not_final (c : ComposeT) (h1 : c.label = none) (h2 : c.final
   subst h1 h2
   rfl
 
-/-- the gates the round trip depends on, read from the generated `VERSION`: documents are written with a version
+/-- the gates the round trip depends on, read from the generated `VERSION` and the generated gates (tools/gen_builders.py): documents are written with a version
 the reader treats as current (type checked, no legacy conversion) -/
 theorem C03_version_gates :
     versionTuple (.str currentVersion) = .ok (.nums [Gen.VERSION.1, Gen.VERSION.2])
-    ∧ lexLe headerTypeGate [Gen.VERSION.1, Gen.VERSION.2] = true
-    ∧ lexLe [Gen.VERSION.1, Gen.VERSION.2] rpmsLegacyGate = false
-    ∧ lexLt [Gen.VERSION.1, Gen.VERSION.2] composeLegacyGate = false :=
+    ∧ gateHolds Gen.GATE_Header_deserialize [Gen.VERSION.1, Gen.VERSION.2] = true
+    ∧ gateHolds Gen.GATE_Rpms_deserialize [Gen.VERSION.1, Gen.VERSION.2] = false
+    ∧ gateHolds Gen.GATE_Compose_deserialize [Gen.VERSION.1, Gen.VERSION.2] = false :=
   ⟨versionTuple_current, gate_header, gate_rpms, gate_compose⟩
 
 /-! ### non-vacuity: concrete compose sections satisfy the hypotheses; a concrete history goes round -/
